@@ -19,7 +19,8 @@ RULE = ("probe strings of every version evaluated (a) in a fresh process, (b) af
         "with a 1e-6 s switch interval, (d) in fresh processes under PYTHONHASHSEED 0/1/2/random, (e) under every "
         "decimal rounding mode x precision {28,29,50,200}; all must equal each other and the Lean model; module "
         "globals, decimal context settings, sys.path, warning filters snapshotted before/after; stdout/stderr of "
-        "non-CLI calls captured; distinct = distinct (probe, situation)")
+        "non-CLI calls captured; distinct = distinct (probe, situation)"
+        " + cold-start concurrency (fresh processes, 8 threads released together); repeated construction; process-global state snapshot taken BEFORE importing the package vs after use (3.12 and 2.7; all interpreters in thorough)")
 ASSUMPTIONS = ["thread schedules and hash seeds are sampled, not proved", "decimal context = its settings, not the sticky status flags"]
 EXPLANATION = ("Lean: the scores are functions of the parsed metric map only (model is pure) and v3_decimal_robust / exactness show the "
                "arithmetic part is independent of rounding mode and precision >= 28; histories, threads and hash seeds are tied by "
